@@ -440,6 +440,13 @@ class Harness:
 
     def cmd(self, name, *args):
         """issue a command on the calling thread; returns 'ok' or the exception type name"""
+        me = threading.current_thread().name
+        self.timeline.append(("c", name, "call", None, me))
+        out = self._cmd(name, *args)
+        self.timeline.append(("c", name, "ret", out, me))
+        return out
+
+    def _cmd(self, name, *args):
         try:
             if name == "initialize":
                 self.initialize()
@@ -522,7 +529,7 @@ def cleanup_all():
 
 
 # ------------------------------------------------------------------------------------------- shared judges
-def check_clock_monotone(h, ctx, where):
+def check_clock_monotone(h, ctx, where, sig="clock-moved-backwards"):
     """(M2) a decrease of the clock outside initialize is observable by any handler or listener"""
     prev = None
     for name, old, new, thread, in_init in h.clock_writes():
@@ -531,7 +538,7 @@ def check_clock_monotone(h, ctx, where):
             prev = float(new)
             continue
         if prev is not None and float(new) < prev:
-            ctx.viol("clock-moved-backwards", {**where, "from": prev, "to": float(new), "thread": thread})
+            ctx.viol(sig, {**where, "from": prev, "to": float(new), "thread": thread})
             return False
         prev = float(new)
     return True
